@@ -1,1 +1,242 @@
-//! harnesses for c05 (filled in below)
+//! C05 — container-free validator kernels: Level-1 vertex validity, permutation parity,
+//! facet-key identity (injectivity / order independence).
+
+use crate::util::*;
+use delaunay::core::facet::facet_key_from_vertices;
+use delaunay::core::triangulation_data_structure::VertexKey;
+use delaunay::core::util::uuid::validate_uuid;
+use delaunay::core::vertex::Vertex;
+use delaunay::core::edge::EdgeKey;
+use delaunay::geometry::point::Point;
+use delaunay::geometry::traits::coordinate::Coordinate;
+use delaunay::verif_hooks::tds as thooks;
+use slotmap::{Key, KeyData};
+
+harness! {
+    // bound: Vertex::is_valid, D=3, UNRESTRICTED coordinates and ALL 2^128 UUID bit patterns (whole domain)
+    #[kani::unwind(6)]
+    fn c05_vertex_is_valid_exact_3d() {
+        let c: [f64; 3] = [kani::any(), kani::any(), kani::any()];
+        let bits: u128 = kani::any();
+        let uuid = uuid::Uuid::from_u128(bits);
+        let v = Vertex::<f64, (), 3>::new_with_uuid(Point::new(c), uuid, None);
+        let finite = c[0].is_finite() && c[1].is_finite() && c[2].is_finite();
+        // RFC 4122: version = high nibble of byte 6 = bits 76..80 of the big-endian u128
+        let version = (bits >> 76) & 0xF;
+        let expected = finite && bits != 0 && version == 4;
+        let r = v.is_valid();
+        assert!(r.is_ok() == expected, "Vertex::is_valid <=> finite coordinates, non-nil UUID, version 4");
+        let u = validate_uuid(&uuid);
+        assert!(u.is_ok() == (bits != 0 && version == 4), "validate_uuid <=> non-nil and version 4");
+        kani::cover!(expected, "valid vertex reached");
+        kani::cover!(finite && bits == 0, "nil UUID reached");
+        kani::cover!(finite && bits != 0 && version != 4, "wrong version reached");
+        kani::cover!(!finite && version == 4, "non-finite coordinate reached");
+        core::mem::forget(r);
+        core::mem::forget(u);
+    }
+}
+
+/// Parity of the permutation taking `src` to `dst` from its cycle structure (reference).
+fn parity_by_cycles<const N: usize>(src: &[u8; N], dst: &[u8; N]) -> Option<bool> {
+    // position map: pos[i] = index in dst of src[i]; requires all entries distinct
+    let mut pos = [0_usize; N];
+    let mut i = 0;
+    while i < N {
+        let mut found = N;
+        let mut j = 0;
+        while j < N {
+            if dst[j] == src[i] {
+                found = j;
+            }
+            j += 1;
+        }
+        if found == N {
+            return None;
+        }
+        pos[i] = found;
+        i += 1;
+    }
+    let mut seen = [false; N];
+    let mut transpositions = 0;
+    let mut i = 0;
+    while i < N {
+        if !seen[i] {
+            let mut len = 0;
+            let mut j = i;
+            let mut guard = 0;
+            while !seen[j] && guard < N {
+                seen[j] = true;
+                j = pos[j];
+                len += 1;
+                guard += 1;
+            }
+            transpositions += len - 1;
+        }
+        i += 1;
+    }
+    Some(transpositions % 2 == 1)
+}
+
+macro_rules! parity {
+    ($name:ident, $n:literal, $unwind:literal) => {
+        harness! {
+            // bound: Tds::permutation_is_odd on id lists of length N over an alphabet of 8 ids: distinct ids => parity from the cycle structure; not a permutation => None
+            #[kani::unwind($unwind)]
+            fn $name() {
+                const N: usize = $n;
+                let src: [u8; N] = kani::any();
+                let dst: [u8; N] = kani::any();
+                let mut distinct = true;
+                let mut i = 0;
+                while i < N {
+                    kani::assume(src[i] < 8 && dst[i] < 8);
+                    let mut j = i + 1;
+                    while j < N {
+                        if src[i] == src[j] {
+                            distinct = false;
+                        }
+                        j += 1;
+                    }
+                    i += 1;
+                }
+                kani::assume(distinct); // cells never repeat a vertex
+                let got = thooks::permutation_is_odd(&src, &dst);
+                let want = parity_by_cycles(&src, &dst);
+                assert!(got == want, "permutation parity equals the parity of the cycle structure; None iff not a permutation");
+                kani::cover!(want == Some(true), "odd permutation reached");
+                kani::cover!(want == Some(false), "even permutation reached");
+                kani::cover!(want.is_none(), "not a permutation reached");
+            }
+        }
+    };
+}
+
+parity!(c05_permutation_parity_n3, 3, 6);
+parity!(c05_permutation_parity_n4, 4, 7);
+parity!(c05_permutation_parity_n5, 5, 8);
+
+harness! {
+    // bound: Tds::permutation_is_odd with different lengths (0..=4 vs 0..=4): None unless equal length
+    #[kani::unwind(7)]
+    fn c05_permutation_parity_length_mismatch() {
+        let a: [u8; 4] = [0, 1, 2, 3];
+        let b: [u8; 4] = [3, 2, 1, 0];
+        let n: usize = kani::any();
+        let m: usize = kani::any();
+        kani::assume(n <= 4 && m <= 4 && n != m);
+        assert!(thooks::permutation_is_odd(&a[..n], &b[..m]).is_none());
+        kani::cover!(n == 0, "empty source reached");
+    }
+}
+
+fn vkey(version: u32, idx: u32) -> VertexKey {
+    VertexKey::from(KeyData::from_ffi((u64::from(version) << 32) | u64::from(idx)))
+}
+
+harness! {
+    // bound: facet_key_from_vertices on 2-key facets, slot-map keys with version 1 (NO slot reuse), index < 2^20: distinct sorted tuples => distinct keys
+    #[kani::unwind(5)]
+    fn c05_facet_key_injective_no_reuse() {
+        let a0: u32 = kani::any();
+        let a1: u32 = kani::any();
+        let b0: u32 = kani::any();
+        let b1: u32 = kani::any();
+        kani::assume(a0 < a1 && b0 < b1);
+        kani::assume(a1 < (1 << 20) && b1 < (1 << 20));
+        kani::assume(a0 != b0 || a1 != b1);
+        let ka = facet_key_from_vertices(&[vkey(1, a0), vkey(1, a1)]);
+        let kb = facet_key_from_vertices(&[vkey(1, b0), vkey(1, b1)]);
+        assert!(ka != kb, "facet key is injective on sorted key tuples");
+        kani::cover!(a0 == b0, "facets sharing a vertex reached");
+    }
+}
+
+harness! {
+    // bound: facet_key_from_vertices on 2-key facets, versions odd <= 1023 (slot reuse), index < 4096, one version per slot: distinct sorted tuples => distinct keys (KNOWN FINDING F2: fails)
+    #[kani::unwind(5)]
+    fn c05_facet_key_injective_with_reuse() {
+        let idx: [u32; 4] = kani::any();
+        let ver: [u32; 4] = kani::any();
+        let mut i = 0;
+        while i < 4 {
+            kani::assume(idx[i] < 4096);
+            kani::assume(ver[i] <= 1023 && ver[i] % 2 == 1); // occupied slots have odd versions
+            let mut j = i + 1;
+            while j < 4 {
+                // a live slot has exactly one version
+                kani::assume(idx[i] != idx[j] || ver[i] == ver[j]);
+                j += 1;
+            }
+            i += 1;
+        }
+        let k = [vkey(ver[0], idx[0]), vkey(ver[1], idx[1]), vkey(ver[2], idx[2]), vkey(ver[3], idx[3])];
+        let raw = |x: VertexKey| x.data().as_ffi();
+        // two facets {k0,k1} and {k2,k3}, each with distinct vertices, different as sets
+        kani::assume(raw(k[0]) < raw(k[1]) && raw(k[2]) < raw(k[3]));
+        kani::assume(raw(k[0]) != raw(k[2]) || raw(k[1]) != raw(k[3]));
+        let ka = facet_key_from_vertices(&[k[0], k[1]]);
+        let kb = facet_key_from_vertices(&[k[2], k[3]]);
+        assert!(ka != kb, "facet key is injective on sorted key tuples");
+        kani::cover!(ver[0] != ver[1], "different versions reached");
+    }
+}
+
+harness! {
+    // bound: facet_key_from_vertices on 3-key facets (D=3), version 1, index < 2^10: distinct sorted tuples => distinct keys
+    #[kani::unwind(6)]
+    fn c05_facet_key_injective_no_reuse_3keys() {
+        let a: [u32; 3] = kani::any();
+        let b: [u32; 3] = kani::any();
+        kani::assume(a[0] < a[1] && a[1] < a[2] && b[0] < b[1] && b[1] < b[2]);
+        kani::assume(a[2] < (1 << 10) && b[2] < (1 << 10));
+        kani::assume(a[0] != b[0] || a[1] != b[1] || a[2] != b[2]);
+        let ka = facet_key_from_vertices(&[vkey(1, a[0]), vkey(1, a[1]), vkey(1, a[2])]);
+        let kb = facet_key_from_vertices(&[vkey(1, b[0]), vkey(1, b[1]), vkey(1, b[2])]);
+        assert!(ka != kb, "facet key is injective on sorted key tuples");
+        kani::cover!(a[0] == b[0] && a[1] == b[1], "facets sharing an edge reached");
+    }
+}
+
+harness! {
+    // bound: facet_key_from_vertices order independence: 3 keys, index < 2^8, version in {1,3}, every permutation
+    #[kani::unwind(6)]
+    fn c05_facet_key_order_independent_3keys() {
+        let idx: [u32; 3] = kani::any();
+        let v3: [bool; 3] = kani::any();
+        kani::assume(idx[0] < 256 && idx[1] < 256 && idx[2] < 256);
+        let k = [
+            vkey(if v3[0] { 3 } else { 1 }, idx[0]),
+            vkey(if v3[1] { 3 } else { 1 }, idx[1]),
+            vkey(if v3[2] { 3 } else { 1 }, idx[2]),
+        ];
+        let base = facet_key_from_vertices(&[k[0], k[1], k[2]]);
+        let p: u8 = kani::any();
+        kani::assume(p < 5);
+        let perm = match p {
+            0 => [k[0], k[2], k[1]],
+            1 => [k[1], k[0], k[2]],
+            2 => [k[1], k[2], k[0]],
+            3 => [k[2], k[0], k[1]],
+            _ => [k[2], k[1], k[0]],
+        };
+        assert!(facet_key_from_vertices(&perm) == base, "facet key does not depend on vertex order");
+        assert!(facet_key_from_vertices(&[]) == 0);
+        kani::cover!(p == 4 && idx[0] > idx[2], "a reversing permutation of unsorted keys reached");
+    }
+}
+
+harness! {
+    // bound: EdgeKey::new over ALL pairs of 64-bit slot-map key patterns: symmetric, endpoints ordered by raw key, endpoints are the inputs
+    fn c05_edge_key_canonical() {
+        let a = VertexKey::from(KeyData::from_ffi(kani::any()));
+        let b = VertexKey::from(KeyData::from_ffi(kani::any()));
+        let e1 = EdgeKey::new(a, b);
+        let e2 = EdgeKey::new(b, a);
+        assert!(e1 == e2, "an edge has one canonical key");
+        let (x, y) = e1.endpoints();
+        assert!(x.data().as_ffi() <= y.data().as_ffi());
+        assert!((x == a && y == b) || (x == b && y == a));
+        kani::cover!(a.data().as_ffi() > b.data().as_ffi(), "swap reached");
+    }
+}
